@@ -165,7 +165,7 @@ def run(prop, tier, cfg, seed, env, work, replay, t_start):
         else:
             e["GOMAXPROCS"] = str(cfg.get("gomaxprocs", 8))
         logf = open(os.path.join(d, "log.txt"), "w")
-        cmd = [binpath, "-test.run", "^%s$" % test, "-test.timeout", "0", "-test.count", "1", "-test.v"]
+        cmd = [binpath, "-test.run", test if test.startswith("^") else "^%s$" % test, "-test.timeout", "0", "-test.count", "1", "-test.v"]
         p = subprocess.Popen(cmd, cwd=d, env=e, stdout=logf, stderr=subprocess.STDOUT, start_new_session=True)
         procs.append((i, d, p, logf))
 
@@ -194,12 +194,11 @@ def run(prop, tier, cfg, seed, env, work, replay, t_start):
     harness_trouble = None
     for i, d, p, logf in procs:
         out = open(os.path.join(d, "log.txt"), errors="replace").read()
-        sp = os.path.join(d, "stats.json")
-        st = None
-        if os.path.exists(sp):
+        for fn in sorted(os.listdir(d)):
+            if not fn.startswith("stats.json"):
+                continue
             try:
-                st = json.load(open(sp))
-                stats.append(st)
+                stats.append(json.load(open(os.path.join(d, fn))))
             except ValueError:
                 pass
         if p.returncode == 0:
@@ -361,10 +360,14 @@ def merge(prop, tier, seed, cfg, stats, wall, violation, fuzz_info):
             if a not in assumptions:
                 assumptions.append(a)
     s0 = stats[0]
+    rules = []
+    for s in stats:
+        if s.get("rule") and s["rule"] not in rules:
+            rules.append(s["rule"])
     cov = {
         "evaluations": evaluations,
         "distinct_nontrivial": len(distinct),
-        "rule": s0.get("rule", ""),
+        "rule": " || ".join(rules),
         "samples": samples,
         "classes": classes,
         "shards": len(stats),
